@@ -8,8 +8,10 @@ from cxx2c import Ty
 
 
 class MSpec:
-    def __init__(self, name, mode, ensures, requires=None, arrays=None, models=None, timeout=60, tier="quick", known=None, alias=None, tol=1e-4, nonneg=False, ranges=False, replay_native=None, exact_f32=False, prefer=None):
+    def __init__(self, name, mode, ensures, requires=None, arrays=None, models=None, timeout=60, tier="quick", known=None, alias=None, tol=1e-4, nonneg=False, ranges=False, replay_native=None, exact_f32=False, prefer=None, unroll=0, rounding=False, rounding_types=()):
         self.ranges = ranges
+        self.unroll = unroll
+        self.rounding, self.rounding_types = rounding, rounding_types
         self.prefer = prefer
         self.exact_f32 = exact_f32
         self.replay_native = replay_native
@@ -78,6 +80,8 @@ def run_mjob(job):
                reason="", is_lemma=False, replaced=[], functions=[ms.name], backend="z3-" + ms.mode, solver_time=0.0)
     try:
         ev = Evaluator(U.tr, ms.mode, models=dict(U.math_models, **ms.models), ranges=ms.ranges)
+        ev.unroll = getattr(ms, 'unroll', 0)
+        ev.rounding, ev.rounding_types = getattr(ms, 'rounding', False), getattr(ms, 'rounding_types', ())
         ev.exact_f32 = getattr(ms, 'exact_f32', False)
         st = State()
         f, args, objs = setup_call(U, ms, ev, st)
@@ -191,11 +195,12 @@ def predicted_outputs(model, RET, Q, solver):
 
 
 class MLemma:
-    def __init__(self, name, mode, fn, uses=(), timeout=60, tier="quick", models=None, tol=1e-4, ranges=False, refute_only=False):
+    def __init__(self, name, mode, fn, uses=(), timeout=60, tier="quick", models=None, tol=1e-4, ranges=False, refute_only=False, unroll=0):
         self.extra = {"refute_only": refute_only}
         self.name, self.mode, self.fn, self.uses = name, mode, fn, list(uses)
         self.timeout, self.tier = timeout, tier
         self.ranges = ranges
+        self.unroll = unroll
         self.models = models or {}
         self.is_lemma = True
         self.tol = tol
@@ -312,6 +317,7 @@ def run_mlemma(job):
                reason="", is_lemma=True, replaced=[], functions=[], backend="z3-" + ml.mode, solver_time=0.0)
     try:
         ev = Evaluator(U.tr, ml.mode, models=dict(U.math_models, **ml.models), ranges=ml.ranges)
+        ev.unroll = getattr(ml, 'unroll', 0)
         ctx = Ctx(U, ev)
         assumptions, goals = ml.fn(ctx)
         res["functions"] = sorted(set(ctx.called))
